@@ -2,6 +2,8 @@
    obligations (`Gen.Debiasers` kernels regenerated from /repo = model) for LinearScaling / DeltaChange. -/
 import IbicusModel.Props.C02
 import IbicusModel.Lemmas.GenDebiasers
+import IbicusModel.Lemmas.GenIsimipSteps
+import IbicusModel.Lemmas.GenDebWin
 -- property theorems
 #print axioms Props.C02.ls_add_shift
 #print axioms Props.C02.ls_mult_scale
@@ -95,3 +97,36 @@ import IbicusModel.Lemmas.GenDebiasers
 #print axioms Lemmas.C02.yearlyMeans_order_free
 #print axioms Lemmas.C02.inferredDoy_range
 #print axioms Lemmas.C02.slice_map3
+-- tier A (ISIMIP steps 3 / 5 / 7 regenerated from `_isimip.py` = the model `isimip_additive_shift` is stated on)
+#print axioms Lemmas.GenIsimipSteps.transfer_trend_eq
+#print axioms Lemmas.GenIsimipSteps.transfer_trend_error
+#print axioms Lemmas.GenIsimipSteps.remove_trend_eq
+#print axioms Lemmas.GenIsimipSteps.step7_eq
+-- tier A: the dataflow of the per-window transfer functions regenerated from /repo (Gen.DebWin) = expected program, and its denotation = Model.Debiasers
+#print axioms Lemmas.GenDebWin.gen_cdft_apply_CDFt_mapping
+#print axioms Lemmas.GenDebWin.gen_ecdfm_apply_on_window
+#print axioms Lemmas.GenDebWin.gen_qdm_apply_debiasing_steps
+#print axioms Lemmas.GenDebWin.gen_qdm_get_obs_and_cm_hist_fits
+#print axioms Lemmas.GenDebWin.gen_qm_standard_qm
+#print axioms Lemmas.GenDebWin.gen_qm_apply_on_window
+#print axioms Lemmas.GenDebWin.gen_sdm_apply_on_window_absolute_sdm
+#print axioms Lemmas.GenDebWin.gen_cdft_apply_debiasing_steps
+#print axioms Lemmas.GenDebWin.gen_sdm_apply_on_window_relative_sdm
+#print axioms Lemmas.GenDebWin.cdft_mapping_denote
+#print axioms Lemmas.GenDebWin.cdft_mapping_denote_methods
+#print axioms Lemmas.GenDebWin.cdft_bad_delta_shift
+#print axioms Lemmas.GenDebWin.ecdfm_denote
+#print axioms Lemmas.GenDebWin.qdm_denote
+#print axioms Lemmas.GenDebWin.qdm_fits_denote
+#print axioms Lemmas.GenDebWin.qdm_window_denote
+#print axioms Lemmas.GenDebWin.qdm_bad_trend_preservation
+#print axioms Lemmas.GenDebWin.qm_standard_param_denote
+#print axioms Lemmas.GenDebWin.qm_standard_nonparam_denote
+#print axioms Lemmas.GenDebWin.qm_param_denote
+#print axioms Lemmas.GenDebWin.qm_nonparam_denote
+#print axioms Lemmas.GenDebWin.qm_bad_detrending
+#print axioms Lemmas.GenDebWin.qm_bad_mapping_type
+#print axioms Lemmas.GenDebWin.sdm_abs_core
+#print axioms Lemmas.GenDebWin.sdm_absolute_denote
+#print axioms Lemmas.GenDebWin.cdft_steps_denote
+#print axioms Lemmas.GenDebWin.cdft_steps_denote_methods
